@@ -38,28 +38,11 @@ FLAGS_REPAIRED = dict(inplace=False, jacketDz=False, coolingSolidPvap=False)
 # ---------------------------------------------------------------------------
 # which of the three 2D oddities does the source tree under test still have?
 # ---------------------------------------------------------------------------
-_FLAGS = None
-
-
 def source_flags():
-    """Flags of the model that correspond to the source tree the harness runs
-    (detected from the text of `_run_2D`, so that the same check works before and
-    after each of the repairs F9/F10/F11)."""
-    global _FLAGS
-    if _FLAGS is not None:
-        return dict(_FLAGS)
-    import inspect
-    from ethz_snow.snowing import Snowing
-
-    src = inspect.getsource(Snowing._run_2D)
-    cool, _, solid = src.partition("# check if nucleation occured")
-    fl = dict(
-        inplace=("T_k.copy()" not in src and "T_new.copy()" not in src and "np.copy(" not in src),
-        jacketDz=("q_jacket * dz" in src),
-        coolingSolidPvap=("vapour_pressure_solid" in cool),
-    )
-    _FLAGS = fl
-    return dict(fl)
+    """Flags of the Lean model the real code is compared with: ALWAYS the repaired model (F9, F10, F11 are committed
+    in /repo).  The flags are not read off the source any more: a change that re-introduces one of the three defects
+    must show up as a disagreement, not make the model follow it."""
+    return dict(FLAGS_REPAIRED)
 
 
 # ---------------------------------------------------------------------------
@@ -374,8 +357,10 @@ def energy_series(case, res, dt):
     K = case["K_shelf"]
     cfg = const["configuration"]
     flat_ice = w.reshape(n, -1).max(axis=1)
-    has = np.nonzero(flat_ice > 0)[0]
-    inuc = int(has[0]) if len(has) else n  # row index of the post-nucleation field
+    inuc = nuc_row(res)  # row index of the post-nucleation field, from the REPORTED nucleation time
+    Teql = const["T_eq"] + 273.15 - const["depression"]
+    cross = np.zeros(n)
+    ncross = np.zeros(n, dtype=int)
     if cfg == "jacket":
         Kw = 1.0 / (1.0 / K + const["air_gap"] / const["lambda_air"])
     dH = np.zeros(n)
@@ -391,6 +376,18 @@ def energy_series(case, res, dt):
             cp = ws * cps + wbar * cpi + (1 - ws - wbar) * cpw
         dh = rho * (cp * (T1 - T0) - Dh * (w1 - w0))
         dH[k] = dH[k - 1] + float(np.sum(dh * geo["vol"]))
+        cross[k] = cross[k - 1]
+        ncross[k] = ncross[k - 1]
+        if k > inuc:
+            # nodes that cross the liquidus within this step: the explicit apparent-heat-capacity scheme takes
+            # the step with the capacity of the OLD state (no latent term, BETA = 1), yet the node is then given
+            # the equilibrium ice of its new temperature: enthalpy rho*Dh*w_i disappears without crossing a boundary
+            cr = (T0 >= Teql) & (T1 < Teql)
+            if cr.any():
+                cp_old = ws * cps + w0 * cpi + (1 - ws - w0) * cpw
+                free = dh - rho * cp_old * (T1 - T0)
+                cross[k] += float(np.sum((free * geo["vol"])[cr]))
+                ncross[k] += int(cr.sum())
         if k == inuc:
             q = 0.0
             qa = 0.0
@@ -434,7 +431,27 @@ def energy_series(case, res, dt):
     # (with a cooled side wall the outermost radial layer, 1/Nr of the radius, adds its own)
     layers = 1.0 / 30 + (1.0 / 15 if (dim == "spatial_2D" and cfg == "jacket") else 0.0)
     grid = layers * rho * Vtot * (cp0 * dTmax + Dh * wmax)
-    return {"dH": dH, "Q": Q, "Qabs": Qabs, "inuc": inuc, "grid": grid}
+    return {"dH": dH, "Q": Q, "Qabs": Qabs, "inuc": inuc, "grid": grid, "cross": cross, "ncross": ncross}
+
+
+def nuc_row(res):
+    """index of the post-nucleation row, located from the REPORTED nucleation time (stats) on the reported
+    time axis -- not from where ice first shows up.  1D/2D: the rows stamped t_nuc are [cooling row of the
+    nucleation step if it was saved], the post-nucleation row, the first solidification row."""
+    time_s = np.asarray(res["time"], float) * 3600.0
+    n = len(time_s)
+    st = res["stats"]
+    dim = res["const"]["dimensionality"]
+    t_nuc = float(st[1] if dim == "homogeneous" else st[4]) * 60.0
+    tol = 1e-9 * max(1.0, abs(t_nuc))
+    if dim == "homogeneous":
+        ge = np.nonzero(time_s >= t_nuc - tol)[0]
+        return int(ge[0]) if len(ge) else n
+    eq = np.nonzero(np.abs(time_s - t_nuc) <= tol)[0]
+    if len(eq) >= 2:
+        return int(eq[-1]) - 1
+    ge = np.nonzero(time_s >= t_nuc - tol)[0]
+    return int(ge[0]) if len(ge) else n
 
 
 def energy_verdict(es, rel=0.03):
@@ -442,6 +459,16 @@ def energy_verdict(es, rel=0.03):
     returns (worst_excess_ratio, row) where ratio = |dH-Q| / tolerance (> 1: violated)"""
     tol = rel * es["Qabs"] + es["grid"]
     err = np.abs(es["dH"] - es["Q"])
+    ratio = np.where(tol > 0, err / np.where(tol > 0, tol, 1), 0.0)
+    k = int(np.argmax(ratio))
+    return float(ratio[k]), k
+
+
+def energy_verdict_without_crossing(es, rel=0.03):
+    """the same with the enthalpy that disappeared at liquidus-crossing nodes taken out (known finding K8):
+    what is left must still balance"""
+    tol = rel * es["Qabs"] + es["grid"]
+    err = np.abs(es["dH"] - es["cross"] - es["Q"])
     ratio = np.where(tol > 0, err / np.where(tol > 0, tol, 1), 0.0)
     k = int(np.argmax(ratio))
     return float(ratio[k]), k
@@ -455,15 +482,15 @@ def _in_window(const, t):
 
 def code_dt(const):
     """the time step the code derives from the constants (same expression)"""
+    if const["dimensionality"] == "homogeneous":
+        return 0.1
     Nz, Nr = 30, 15
     dz = const["height"] / Nz
     alpha_max = const["lambda_i"] / (const["cp_i"] * const["rho_l"])
     if const["dimensionality"] == "spatial_2D":
         dr = (const["diameter"] / 2) / Nr
         return (0.4 / alpha_max) * (dz ** 2 * dr ** 2) / (dr ** 2 + dz ** 2)
-    if const["dimensionality"] == "spatial_1D":
-        return 0.4 * dz ** 2 / alpha_max
-    return 0.1
+    return 0.4 * dz ** 2 / alpha_max
 
 
 # ---------------------------------------------------------------------------
@@ -479,7 +506,7 @@ def _cache_path(case):
     h = hashlib.sha256()
     h.update(core.repo_fingerprint().encode())
     h.update(json.dumps(case, sort_keys=True, default=str).encode())
-    h.update(b"obs-v8")
+    h.update(b"obs-v10")
     d = core.VERIF / ".cache" / "s2d"
     d.mkdir(parents=True, exist_ok=True)
     return d / (h.hexdigest()[:24] + ".json.gz")
@@ -757,6 +784,75 @@ def _bottom_flux(case, res, dt, inuc):
             "q_expected": float(q_exp[j]), "T_bottom": float(c[j]), "T_shelf": float(shelf[1:][j])}
 
 
+def _wall_flux(case, res, dt, inuc):
+    """2D jacket: heat flux applied at the side wall (mid-height node of the outermost column), inferred from two
+    consecutive recorded fields by inverting that node's update, against K_wall*(T_shelf - T_wall) with the run's OWN
+    K_wall = 1/(1/K_shelf + air_gap/lambda_air)."""
+    const = res["const"]
+    if const["dimensionality"] != "spatial_2D" or const["configuration"] != "jacket":
+        return None
+    T = res["temp"] + 273.15
+    w = res["ice"]
+    shelf = res["shelf"] + 273.15
+    n = T.shape[0]
+    time_s = res["time"] * 3600.0
+    Nz, Nr = 30, 15
+    i = Nz // 2
+    dz = const["height"] / Nz
+    R = const["diameter"] / 2
+    dr = R / Nr
+    sf = const["solid_fraction"]
+    k0 = sf * const["lambda_s"] + (1 - sf) * const["lambda_w"]
+    rho = const["rho_l"]
+    a = k0 / (const["cp_solution"] * rho) * dt
+    Tm = const["T_eq"] + 273.15
+    Teql = Tm - const["depression"]
+    Kw = 1.0 / (1.0 / case["K_shelf"] + const["air_gap"] / const["lambda_air"])
+    c, nn = T[:-1, i, Nr - 1], T[:-1, i, Nr - 2]
+    up, lo = T[:-1, i + 1, Nr - 1], T[:-1, i - 1, Nr - 1]
+    c1 = T[1:, i, Nr - 1]
+    lam = lambda ww: const["lambda_i"] * ww + const["lambda_w"] * (1 - ww)
+    wc = w[:-1, i, Nr - 1]
+    kc, kI = lam(wc), lam(w[:-1, i, Nr - 2])
+    kU, kL = lam(w[:-1, i + 1, Nr - 1]), lam(w[:-1, i - 1, Nr - 1])
+    ks = np.arange(1, n)
+    one = np.abs((time_s[1:] - time_s[:-1]) - dt) <= 1e-6 * dt
+    if inuc < n:
+        one[inuc - 1] = False
+        if inuc < n - 1:
+            one[inuc] = True
+    solid = ks > inuc
+    # cooling: T1 = c + a*((1/R)(Te-n)/(2dr) + (Te-2c+n)/dr^2 + (u-2c+l)/dz^2)
+    ax = (up - 2 * c + lo) / dz ** 2
+    coef = 1 / (R * 2 * dr) + 1 / dr ** 2
+    rest = -nn / (R * 2 * dr) + (-2 * c + nn) / dr ** 2
+    e_cool = ((c1 - c) / a - ax - rest) / coef
+    q_cool = (e_cool - c) * k0 / dr
+    cp = const["cp_s"] * sf + const["cp_i"] * wc + const["cp_w"] * (1 - sf - wc)
+    beta = const["Dh"] * const["k_f"] * const["mass_solute"] / (const["M_s"] * rho * const["V"] * cp)
+    with np.errstate(divide="ignore", invalid="ignore"):
+        B = np.where(c < Teql, 1 + beta / (c - Tm) ** 2, 1.0)
+        ssum = (c1 - c) * B / (dt / (cp * rho))
+        dKz = (kU - kL) * (up - lo) / (4 * dz ** 2)
+        Z2 = kc * (up - 2 * c + lo) / dz ** 2
+        coef_s = (kc / R) / (2 * dr) + (kc - kI) / (4 * dr ** 2) + kc / dr ** 2
+        rest_s = -(kc / R) * nn / (2 * dr) - (kc - kI) * nn / (4 * dr ** 2) + kc * (-2 * c + nn) / dr ** 2
+        e_sol = (ssum - dKz - Z2 - rest_s) / coef_s
+        q_sol = (e_sol - c) * kc / dr
+    q_app = np.where(solid, q_sol, q_cool)
+    q_exp = Kw * (shelf[1:] - c)
+    ok = one & np.isfinite(q_app)
+    if not ok.any():
+        return {"n": 0}
+    dev = np.where(ok, np.abs(q_app - q_exp), 0.0)
+    tol = 1e-2 + 1e-6 * np.abs(q_exp)
+    score = dev / tol
+    j = int(np.argmax(score))
+    return {"n": int(ok.sum()), "worst_dev": float(dev[j]), "score": float(score[j]), "row": int(ks[j]),
+            "stage": "solidification" if solid[j] else "cooling", "q_applied": float(q_app[j]),
+            "q_expected": float(q_exp[j]), "T_wall": float(c[j]), "T_shelf": float(shelf[1:][j]), "K_wall": Kw}
+
+
 def observe(case, use_cache=True):
     """the shared observation of one real run"""
     p = _cache_path(case)
@@ -807,6 +903,7 @@ def summarize(case, res):
             es = energy_series(case, res, dt)
             inuc = es["inuc"]
             ratio, k = energy_verdict(es)
+            ratio_nc, k_nc = energy_verdict_without_crossing(es)
             time_s = res["time"] * 3600.0
             strided = bool(n > 2 and (time_s[1] - time_s[0]) > 1.5 * dt)
             obs["energy"] = {"ratio": ratio, "row": k, "dH": float(es["dH"][k]), "Q": float(es["Q"][k]),
@@ -818,13 +915,28 @@ def summarize(case, res):
                                          if 0 < inuc < n and abs(time_s[inuc] - time_s[inuc - 1]) <= 1e-9 * max(1.0, time_s[inuc])
                                          else 0.0),
                              "jump_scale": float(es["Qabs"][-1]),
-                             "strided": strided}
+                             "strided": strided,
+                             "ratio_without_crossing": ratio_nc, "row_without_crossing": k_nc,
+                             "cross": float(es["cross"][k]), "cross_final": float(es["cross"][-1]),
+                             "crossings": int(es["ncross"][-1]),
+                             "unsupercooled_at_nucleation": (float((res["temp"][inuc - 1] + 273.15 >= const["T_eq"] + 273.15 - const["depression"]).mean())
+                                                              if 0 < inuc < n else None)}
             obs["inuc"] = inuc
             obs["bounds"] = _bounds_summary(case, res, inuc)
             obs["radial"] = _radial_summary(res, inuc)
             obs["evap"] = _evap_inferred(case, res, dt, inuc)
             obs["topflux"] = None if strided else _top_flux(case, res, dt, inuc)
             obs["botflux"] = None if strided else _bottom_flux(case, res, dt, inuc)
+            obs["wallflux"] = None if strided else _wall_flux(case, res, dt, inuc)
+            # the time step used by this harness (code_dt repeats the code's formula) must be the one the run used:
+            # the reported stamps are multiples of it.  Otherwise the flux clauses would silently evaluate nothing.
+            dts = np.diff(time_s)
+            pos = dts[dts > 1e-12]
+            mult = pos.min() / dt if len(pos) else 0.0
+            obs["dt_consistent"] = bool(len(pos) and abs(mult - round(mult)) <= 1e-6 * max(1.0, mult) and round(mult) >= 1)
+            for nm in ("topflux", "botflux"):
+                if not strided and n > 3 and not (obs[nm] or {}).get("n"):
+                    obs["dt_consistent"] = False
             stride = int(case.get("outStride", 1))
             rows = keep_rows(n, min(inuc, n - 1), stride)
             obs["iSaveEnd"] = min(inuc, n - 1)
@@ -833,6 +945,9 @@ def summarize(case, res):
             obs["ice"] = [res["ice"][k].reshape(-1).tolist() for k in rows]
             obs["T_eq_l"] = const["T_eq"] - const["depression"]
         else:
+            inuc = nuc_row(res)
+            obs["inuc"] = inuc
+            obs["bounds"] = _bounds_summary(case, res, inuc)
             obs["temp"] = res["temp"].tolist()
             obs["ice"] = res["ice"].tolist()
     return obs
